@@ -1437,7 +1437,11 @@ impl Blueprint {
     /// Read a RON-encoded [`Blueprint`] from a file.
     pub fn load(filepath: &std::path::Path) -> Result<Self, anyhow::Error> {
         let file = fs_err::OpenOptions::new().read(true).open(filepath)?;
-        let value: BlueprintSchema = ron::de::from_reader(&file)?;
+        // Whatever `persist` managed to write must be readable: the writer's own recursion
+        // limit is what bounds the depth of the file.
+        let value: BlueprintSchema = ron::Options::default()
+            .without_recursion_limit()
+            .from_reader(&file)?;
         Ok(Self { schema: value })
     }
 }
